@@ -93,10 +93,11 @@ class Agg(V):
 class RefV(V):
     """Reference to a place of the *current frame's* store (frame id, local, proj)."""
 
-    def __init__(self, frame, local, proj):
+    def __init__(self, frame, local, proj, mut=False):
         self.frame = frame
         self.local = local
         self.proj = proj
+        self.mut = mut
 
     def expr(self):
         return "&%s" % (self.frame.read(self.local, self.proj).expr())
@@ -583,7 +584,7 @@ class Interp:
                 v = fr.store.get(p.local)
                 if isinstance(v, (RefV, Sym)):
                     return v
-            return RefV(fr, p.local, p.proj)
+            return RefV(fr, p.local, p.proj, bool(rv.get("mut")) or k == "rawptr")
         if k == "agg":
             elems = [self.operand(fr, o) for o in rv["ops"]]
             a = rv["agg"]
@@ -738,6 +739,18 @@ class Interp:
                 e = self.fresh(e)
             ret_ty = strip_generics(body.locals[dest.local]["ty"]) if not dest.proj else None
             res = Sym(e, ty=ret_ty)
+            # an opaque callee may write through every `&mut` it receives
+            if not any(n in pure for n in names) and not self.cfg.get("no_havoc"):
+                for i, a in enumerate(args):
+                    if isinstance(a, RefV) and a.mut:
+                        old = a.frame.read(a.local, a.proj)
+                        if nm in ("core::ops::arith::AddAssign::add_assign",) and len(args) == 2:
+                            nv = self.binop("Add", self.deref(old), self.deref(args[1]))
+                        elif nm in ("core::ops::arith::SubAssign::sub_assign",) and len(args) == 2:
+                            nv = self.binop("Sub", self.deref(old), self.deref(args[1]))
+                        else:
+                            nv = Sym("mut[%s#%d](%s)" % (nm.rsplit("::", 2)[-2] + "::" + nm.rsplit("::", 1)[-1], i, self.deref(old).expr()))
+                        a.frame.write(a.local, a.proj, nv)
             if self.events and self.events[-1][0] == "call" and self.events[-1][3] == body.loc(bb, "term") \
                     and len(self.events[-1]) == 5:
                 self.events[-1] = self.events[-1] + (res,)
